@@ -32,7 +32,7 @@ ASSUMPTIONS = [
     "bytes after the end of a raw-deflate stream inside a block payload are recorded, not judged (A6)",
     "fixtures using snappy or the error/request schema kinds are skipped by the reference side (counted)",
 ]
-N = {"quick": 16000, "thorough": 400000}
+N = {"quick": 48000, "thorough": 800000}
 TIME_LIMIT = {"quick": 40, "thorough": 560}
 SHARDS = 16
 CODECS = ["null", "deflate", "bzip2", "xz"]
